@@ -72,6 +72,11 @@ func KeyUnwrap(block cipher.Block, ciphertext []byte) ([]byte, error) {
 		return nil, errors.New("square/go-jose: key wrap input must be 8 byte blocks")
 	}
 
+	// The wrapped key is the IV and at least one block, an empty one is from an invalid message.
+	if len(ciphertext) < 16 {
+		return nil, errors.New("square/go-jose: key wrap input too short")
+	}
+
 	n := (len(ciphertext) / 8) - 1
 	r := make([][]byte, n)
 
